@@ -66,9 +66,11 @@ CLAIMED = {
     "C08": dict(
         text="Coq theorems C08_closed_released (every reachable closed state: keepalive/pong timers cancelled, waiter set empty, socket released, helper released or about to be, flags down) and "
              "C08_closed_is_silent (from a closed state no label - data, timers, wake-ups, user calls - produces a write of application messages, a subscriber delivery or a stop call, and the state stays closed) "
-             "about Model/Conn.v. Tied by trace validation; on the implementation the same clauses are evaluated after every callback, plus an audit of the loop's timer heap and the connection's tasks at quiescent points after the close.",
-        note=CONN_NOTE + "Partial in two named respects: OS-level release of the socket is observed on a fake socket only; 'no request/handshake timer stays armed and no task stays blocked' at quiescent points is checked on the implementation (timer-heap/task audit) and by trace validation, not yet proved as a theorem about the model.",
-        tech="machine-checked proof in Coq (inductive invariant + closed-state silence lemma over all labels) + trace validation and resource audit against the real APIConnection",
+             "about Model/Conn.v; no coroutine stays blocked, over all runs: C08_pending_call_is_waiter, C08_closed_no_pending_call, C08_closed_call_task_resumes (invariant PW, Proofs/ConnUnblock.v: a closed connection has no pending call future and every task awaiting a call has its wake-up enabled), "
+             "C08_closed_start_interruptible, C08_closed_finish_interruptible, C08_closed_disconnect_wait_released (invariant CK2, Proofs/ConnKick.v: the interrupt callback of a still-suspended connect coroutine is enabled or has fired; the wait of disconnect() is over or releasable). "
+             "Tied by trace validation; on the implementation the same clauses are evaluated after every callback, plus an audit of the loop's timer heap and the connection's tasks at quiescent points after the close.",
+        note=CONN_NOTE + "Partial in one named respect: OS-level release of the socket is observed on a fake socket only. Request timers after the close are covered through C11 (the wake-up that ends a call leaves no timer) and the task audit on the implementation.",
+        tech="machine-checked proof in Coq (inductive invariants over all 35 labels: released resources, closed-state silence, pending-call-is-waiter, interrupt blocks) + trace validation and resource audit against the real APIConnection",
         ref="DESIGN.md §5 C08"),
     "C06": dict(
         text="Coq theorems C06_accept_iff (the hello/login decision accepts exactly: HelloResponse first with major <= 2 read from the source, name empty/expected or no expected name, and when login is on a ConnectResponse next without invalid_password), "
